@@ -104,7 +104,46 @@ def nbdime_reset():
             if table.get(k, None) is not v:
                 dict.__setitem__(table, k, v)
     mg._merge_strings.recursion = False
+    _reset_module_containers()
     install_stubs()
+
+
+_containers = {}
+
+
+def _reset_module_containers():
+    """Every module-level dict / list / set of a loaded nbdime module gets its
+    import-time contents back (shallow), so that a path never sees what an
+    earlier path left in a module-level cache: each path then behaves like a
+    fresh process, which is what the replay runs.  (Histories inside one
+    process are the subject of C12 and of the second-merge shards.)"""
+    import sys as _sys
+    for name, mod in list(_sys.modules.items()):
+        if mod is None or not (name == "nbdime" or name.startswith("nbdime.")) or ".tests" in name:
+            continue
+        for gname, val in list(mod.__dict__.items()):
+            if gname.startswith("__") or type(val) not in (dict, list, set):
+                continue
+            key = (name, gname)
+            if key not in _containers:
+                _containers[key] = (val, type(val)(val))
+                continue
+            obj, want = _containers[key]
+            if val is not obj:
+                # rebound since import: remember the new object as it is now
+                _containers[key] = (val, type(val)(val))
+                continue
+            if type(val) is list:
+                if len(val) != len(want) or any(a is not b for a, b in zip(val, want)):
+                    val[:] = want
+            elif type(val) is dict:
+                if len(val) != len(want) or any(k not in val or val[k] is not v for k, v in want.items()):
+                    val.clear()
+                    val.update(want)
+            else:
+                if val != want:
+                    val.clear()
+                    val.update(want)
 
 
 # pure boolean leaf predicates of nbdime that sx explores as one summarised
